@@ -160,16 +160,20 @@ theorem restore_after_calibrate (c : Comp Θ S L σ) (n : Nat) (s : State Θ S L
         · exact ih (stepState s k) (by simpa [stepState] using hk) (by omega) hret
   simp [restore, hd, ht]
 
-/-! ### the RL scheduler: the full statement is false (known finding `C05/rl-scheduler/live-split`)
+/-! ### the RL scheduler: why the property's quantifier says "RL: single session"
+
+The property quantifies over "configurations as in C01", and C01 admits the RL scheduler for a *single session*
+only, i.e. for one `calibrate()` call: cuts are quantified for round-robin line-ups.  The theorems below record
+why that restriction is needed — an observation about the code, outside the property, not a finding.
 
 In `calibrate_split` and `resume_eq` the component `c.action` is the sequence of actions the calibrator
 *consumes*; the theorems say that the calibrator itself adds no dependence on where a run is cut.  For the
-round-robin scheduler nothing else is involved (`nextIdx` does not read `c.action`) and the statement is the
-full C05.  For the RL scheduler the consumed actions come from the agent thread, and every `calibrate()` call
-is one session of the exchange modelled in `BlackIt/Model/RLProtocol.lean`: at the end of a session the
-action the agent has already chosen for the next batch is dropped, and the next session asks `policy` again.
-An agent whose answer depends on its own history (every learning agent, every agent that draws random numbers)
-therefore hands over different actions when the same batches are split over two calls. -/
+round-robin scheduler nothing else is involved (`nextIdx` does not read `c.action`).  For the RL scheduler the
+consumed actions come from the agent thread, and every `calibrate()` call is one session of the exchange
+modelled in `BlackIt/Model/RLProtocol.lean`: at the end of a session the action the agent has already chosen
+for the next batch is dropped, and the next session asks `policy` again.  An agent whose answer depends on its
+own history (every learning agent, every agent that draws random numbers) therefore hands over different
+actions when the same batches are split over two calls. -/
 end BlackIt.Calibrator
 
 namespace BlackIt.RL
@@ -183,9 +187,10 @@ def oneCall : List Bool := [true, true, true, false, false, true, true, false, f
 def twoCalls : List Bool := [true, true, true, true, true, false, false, false, true, true, true, false, false, true, true,
   false, false, false, false, true, true, true, true, false, false, false, false, false, true, true]
 
-/-- **C05 is false for the RL scheduler** (witness, replayed on the real code by the check): three batches in
-one `calibrate()` call execute the agent's actions 0, 1 in batches 2, 3; the same three batches split 1 + 2
-execute 1, 0 — for *every* thread interleaving of either run. -/
+/-- **outside the quantifier: an RL run that is cut is a different run** (witness, replayed on the real code by
+the check and recorded in the evidence as an observation): three batches in one `calibrate()` call execute the
+agent's actions 0, 1 in batches 2, 3; the same three batches split 1 + 2 execute 1, 0 — for *every* thread
+interleaving of either run. -/
 theorem rl_split_not_transparent (σ1 σ2 : List Bool) (e1 e2 : DSt)
     (h1 : drun parityAgent { sessions := [(3, false)] } σ1 = some e1) (t1 : terminal parityAgent e1 = true)
     (h2 : drun parityAgent { sessions := [(1, false), (2, false)] } σ2 = some e2) (t2 : terminal parityAgent e2 = true) :
@@ -205,7 +210,7 @@ theorem rl_split_not_transparent (σ1 σ2 : List Bool) (e1 e2 : DSt)
       have b := schedule_independent_init parityAgent _ σ2 twoCalls e2 d2 h2 t2 hd2 w2.2
       exact ⟨a.1.trans w1.1, b.1.trans w2.1⟩
 
-/-- what does hold for the RL scheduler (`…_partial`): within one session the executed actions are exactly the
+/-- what does hold for the RL scheduler: within one session the executed actions are exactly the
 agent's choices in order, each learned once — `learned_eq_executed`, `schedule_independent` (C10); across a
 cut only the calibrator-side statement `Calibrator.calibrate_split` (same consumed actions ⇒ same history). -/
 theorem rl_split_partial (f : List AgEv → Nat) (script : List (Nat × Bool)) (σ1 σ2 : List Bool) (e1 e2 : DSt)
